@@ -1,0 +1,428 @@
+//go:build verif
+
+package server
+
+// Verification hooks: schedule/crash/gate points, the C08 logged-vs-flushed
+// monitor, and the VERIF control/inspection command. Compiled only with the
+// "verif" build tag.
+
+import (
+	"bytes"
+	"errors"
+	"fmt"
+	"os"
+	"path/filepath"
+	"runtime"
+	"sort"
+	"strconv"
+	"strings"
+	"sync"
+	"sync/atomic"
+	"syscall"
+	"time"
+
+	"github.com/tidwall/resp"
+	"github.com/tidwall/tile38/internal/collection"
+)
+
+type verifAction struct {
+	kind  string // sleep, yield, crash, gate
+	arg   int
+	after int // skip this many arrivals first
+	times int // apply at most this many times (0 = unlimited)
+	used  int
+}
+
+var verifState struct {
+	armed    atomic.Bool
+	mu       sync.Mutex
+	cond     *sync.Cond
+	actions  map[string]*verifAction
+	arrivals map[string]int
+	parked   map[string]int
+	release  map[string]int
+}
+
+func init() {
+	verifState.cond = sync.NewCond(&verifState.mu)
+	verifState.actions = map[string]*verifAction{}
+	verifState.arrivals = map[string]int{}
+	verifState.parked = map[string]int{}
+	verifState.release = map[string]int{}
+	if v := os.Getenv("T38_VERIF_POINTS"); v != "" {
+		for _, part := range strings.Split(v, ";") {
+			part = strings.TrimSpace(part)
+			if part == "" {
+				continue
+			}
+			if i := strings.IndexByte(part, '='); i > 0 {
+				verifArm(part[:i], part[i+1:])
+			}
+		}
+	}
+}
+
+// verifArm parses "sleep:50", "yield:10", "crash", "gate", each optionally
+// followed by "@N" (skip the first N arrivals) and "xM" (apply M times).
+func verifArm(name, spec string) error {
+	a := &verifAction{}
+	if i := strings.IndexByte(spec, 'x'); i > 0 {
+		n, err := strconv.Atoi(spec[i+1:])
+		if err != nil {
+			return err
+		}
+		a.times = n
+		spec = spec[:i]
+	}
+	if i := strings.IndexByte(spec, '@'); i > 0 {
+		n, err := strconv.Atoi(spec[i+1:])
+		if err != nil {
+			return err
+		}
+		a.after = n
+		spec = spec[:i]
+	}
+	if i := strings.IndexByte(spec, ':'); i > 0 {
+		n, err := strconv.Atoi(spec[i+1:])
+		if err != nil {
+			return err
+		}
+		a.arg = n
+		spec = spec[:i]
+	}
+	switch spec {
+	case "sleep", "yield", "crash", "gate":
+		a.kind = spec
+	case "off":
+		verifState.mu.Lock()
+		delete(verifState.actions, name)
+		verifState.armed.Store(len(verifState.actions) > 0)
+		verifState.release[name] += 1 << 30
+		verifState.cond.Broadcast()
+		verifState.mu.Unlock()
+		return nil
+	default:
+		return errors.New("unknown action " + spec)
+	}
+	verifState.mu.Lock()
+	verifState.actions[name] = a
+	verifState.release[name] = 0
+	verifState.armed.Store(true)
+	verifState.mu.Unlock()
+	return nil
+}
+
+// verifPoint is a named schedule / crash / gate point. It must only be called
+// where the goroutine may legally be preempted for sleep/yield/gate actions;
+// points inside a locked section are used with "crash" only.
+func verifPoint(name string) {
+	if !verifState.armed.Load() {
+		return
+	}
+	verifState.mu.Lock()
+	verifState.arrivals[name]++
+	n := verifState.arrivals[name]
+	a := verifState.actions[name]
+	if a == nil || n <= a.after || (a.times > 0 && a.used >= a.times) {
+		verifState.mu.Unlock()
+		return
+	}
+	a.used++
+	kind, arg := a.kind, a.arg
+	if kind == "gate" {
+		verifState.parked[name]++
+		for verifState.release[name] <= 0 {
+			verifState.cond.Wait()
+		}
+		verifState.release[name]--
+		verifState.parked[name]--
+		verifState.mu.Unlock()
+		return
+	}
+	verifState.mu.Unlock()
+	switch kind {
+	case "sleep":
+		time.Sleep(time.Duration(arg) * time.Millisecond)
+	case "yield":
+		for i := 0; i < arg; i++ {
+			runtime.Gosched()
+		}
+	case "crash":
+		syscall.Kill(os.Getpid(), syscall.SIGKILL)
+		time.Sleep(time.Hour)
+	}
+}
+
+// ---- C08 monitor: logged sequence vs flushed sequence at the socket write
+
+var verifC08 struct {
+	mu          sync.Mutex
+	logSeq      uint64            // sequence number of the last logged command
+	flushedSeq  uint64            // every command <= this has been written to the file
+	lastLogged  map[uint64]uint64 // goroutine id -> seq of its last logged command
+	sends       uint64
+	sendsWrites uint64 // sends that carried the reply of a logged command
+	overtaken   uint64 // such sends where another goroutine logged after this one did
+	violations  uint64
+}
+
+func init() { verifC08.lastLogged = map[uint64]uint64{} }
+
+func verifGID() uint64 {
+	var buf [64]byte
+	b := buf[:runtime.Stack(buf[:], false)]
+	b = bytes.TrimPrefix(b, []byte("goroutine "))
+	if i := bytes.IndexByte(b, ' '); i > 0 {
+		b = b[:i]
+	}
+	n, _ := strconv.ParseUint(string(b), 10, 64)
+	return n
+}
+
+// verifLogged is called in writeAOF after a command was appended to the buffer
+// (under the server's exclusive lock).
+func (s *Server) verifLogged() {
+	gid := verifGID()
+	verifC08.mu.Lock()
+	verifC08.logSeq++
+	verifC08.lastLogged[gid] = verifC08.logSeq
+	verifC08.mu.Unlock()
+}
+
+// verifFlushed is called in flushAOF after the buffer was written to the file.
+func (s *Server) verifFlushed() {
+	verifC08.mu.Lock()
+	verifC08.flushedSeq = verifC08.logSeq
+	verifC08.mu.Unlock()
+}
+
+// verifBeforeSend is called right before the reply bytes are written to the
+// client socket. It never panics and never blocks on the server lock.
+func (s *Server) verifBeforeSend() {
+	gid := verifGID()
+	verifC08.mu.Lock()
+	verifC08.sends++
+	mine := verifC08.lastLogged[gid]
+	var bad bool
+	var flushed, logSeq uint64
+	if mine != 0 {
+		verifC08.sendsWrites++
+		flushed, logSeq = verifC08.flushedSeq, verifC08.logSeq
+		if logSeq > mine {
+			verifC08.overtaken++
+		}
+		if mine > flushed {
+			verifC08.violations++
+			bad = true
+		}
+		delete(verifC08.lastLogged, gid)
+	}
+	verifC08.mu.Unlock()
+	if bad {
+		verifEvent(s, fmt.Sprintf(`{"event":"send-before-flush","goroutine":%d,"logged_seq":%d,"flushed_seq":%d,"log_seq":%d}`,
+			gid, mine, flushed, logSeq))
+	}
+}
+
+func (s *Server) verifAfterClear() {}
+
+var verifEventMu sync.Mutex
+
+func verifEvent(s *Server, line string) {
+	verifEventMu.Lock()
+	defer verifEventMu.Unlock()
+	f, err := os.OpenFile(filepath.Join(s.dir, "verif-events.log"), os.O_CREATE|os.O_APPEND|os.O_WRONLY, 0600)
+	if err != nil {
+		return
+	}
+	f.WriteString(line + "\n")
+	f.Close()
+}
+
+// ---- VERIF command
+
+func (s *Server) cmdVerif(msg *Message) (resp.Value, error) {
+	args := msg.Args
+	if len(args) < 2 {
+		return NOMessage, errInvalidNumberOfArguments
+	}
+	out := func(v string) (resp.Value, error) {
+		if msg.OutputType == JSON {
+			return resp.StringValue(`{"ok":true,"verif":` + jsonString(v) + `}`), nil
+		}
+		return resp.StringValue(v), nil
+	}
+	switch strings.ToLower(args[1]) {
+	case "point":
+		if len(args) != 4 {
+			return NOMessage, errInvalidNumberOfArguments
+		}
+		if err := verifArm(args[2], args[3]); err != nil {
+			return NOMessage, err
+		}
+		return out("OK")
+	case "release":
+		if len(args) < 3 {
+			return NOMessage, errInvalidNumberOfArguments
+		}
+		n := 1
+		if len(args) > 3 {
+			n, _ = strconv.Atoi(args[3])
+		}
+		verifState.mu.Lock()
+		verifState.release[args[2]] += n
+		verifState.cond.Broadcast()
+		verifState.mu.Unlock()
+		return out("OK")
+	case "status":
+		var sb strings.Builder
+		verifState.mu.Lock()
+		names := map[string]bool{}
+		for k := range verifState.arrivals {
+			names[k] = true
+		}
+		for k := range verifState.parked {
+			names[k] = true
+		}
+		var ks []string
+		for k := range names {
+			ks = append(ks, k)
+		}
+		sort.Strings(ks)
+		for _, k := range ks {
+			fmt.Fprintf(&sb, "point %s arrivals=%d parked=%d\n", k, verifState.arrivals[k], verifState.parked[k])
+		}
+		verifState.mu.Unlock()
+		verifC08.mu.Lock()
+		fmt.Fprintf(&sb, "c08 sends=%d sends_writes=%d overtaken=%d violations=%d log_seq=%d flushed_seq=%d\n",
+			verifC08.sends, verifC08.sendsWrites, verifC08.overtaken, verifC08.violations, verifC08.logSeq, verifC08.flushedSeq)
+		verifC08.mu.Unlock()
+		return out(sb.String())
+	case "audit":
+		problems := s.verifAudit()
+		return out(strings.Join(problems, "\n"))
+	case "luaglobals":
+		return out(strings.Join(s.verifLuaGlobals(), "\n"))
+	}
+	return NOMessage, errInvalidArgument(args[1])
+}
+
+// verifAudit cross-checks every collection's indexes and counters and the hook
+// registries. Read-only; runs under the shared lock taken by the dispatcher.
+func (s *Server) verifAudit() []string {
+	var out []string
+	s.cols.Scan(func(key string, col *collection.Collection) bool {
+		for _, p := range col.VerifAudit() {
+			out = append(out, "collection "+strconv.Quote(key)+": "+p)
+		}
+		if col.Count() == 0 {
+			out = append(out, "collection "+strconv.Quote(key)+": empty collection is still registered")
+		}
+		return true
+	})
+	// hooks
+	names := map[string]*Hook{}
+	s.hooks.Ascend(nil, func(v interface{}) bool {
+		h := v.(*Hook)
+		if _, dup := names[h.Name]; dup {
+			out = append(out, "hook "+strconv.Quote(h.Name)+": duplicate in registry")
+		}
+		names[h.Name] = h
+		return true
+	})
+	nOut := 0
+	s.hooksOut.Ascend(nil, func(v interface{}) bool {
+		h := v.(*Hook)
+		nOut++
+		if names[h.Name] != h {
+			out = append(out, "hooksOut: stale hook "+strconv.Quote(h.Name))
+		}
+		return true
+	})
+	nExp := 0
+	s.hookExpires.Ascend(nil, func(v interface{}) bool {
+		h := v.(*Hook)
+		nExp++
+		if names[h.Name] != h {
+			out = append(out, "hookExpires: stale hook "+strconv.Quote(h.Name))
+		}
+		return true
+	})
+	inTree := map[*Hook]int{}
+	s.hookTree.Scan(func(min, max [2]float64, v interface{}) bool {
+		h := v.(*Hook)
+		inTree[h]++
+		if names[h.Name] != h {
+			out = append(out, "hookTree: stale hook "+strconv.Quote(h.Name))
+		}
+		return true
+	})
+	inCross := map[*Hook]int{}
+	s.hookCross.Scan(func(min, max [2]float64, v interface{}) bool {
+		h := v.(*Hook)
+		inCross[h]++
+		if names[h.Name] != h {
+			out = append(out, "hookCross: stale hook "+strconv.Quote(h.Name))
+		}
+		return true
+	})
+	wantOut, wantExp := 0, 0
+	for _, h := range names {
+		if h.Fence != nil && (h.Fence.detect == nil || h.Fence.detect["outside"]) {
+			wantOut++
+			if s.hooksOut.Get(h) != interface{}(h) {
+				out = append(out, "hook "+strconv.Quote(h.Name)+": wants outside but is missing from hooksOut")
+			}
+		}
+		if !h.expires.IsZero() {
+			wantExp++
+			if s.hookExpires.Get(h) != interface{}(h) {
+				out = append(out, "hook "+strconv.Quote(h.Name)+": has a deadline but is missing from hookExpires")
+			}
+		}
+		if h.Fence != nil && h.Fence.obj != nil {
+			if inTree[h] != 1 {
+				out = append(out, fmt.Sprintf("hook %q: %d entries in hookTree, want 1", h.Name, inTree[h]))
+			}
+			if h.Fence.detect["cross"] && inCross[h] != 1 {
+				out = append(out, fmt.Sprintf("hook %q: %d entries in hookCross, want 1", h.Name, inCross[h]))
+			}
+		}
+	}
+	if nOut != wantOut {
+		out = append(out, fmt.Sprintf("hooksOut has %d entries, %d hooks want outside", nOut, wantOut))
+	}
+	if nExp != wantExp {
+		out = append(out, fmt.Sprintf("hookExpires has %d entries, %d hooks have a deadline", nExp, wantExp))
+	}
+	// groups: both trees hold the same items; each refers to a live hook and object
+	gh := map[*groupItem]bool{}
+	s.groupHooks.Ascend(nil, func(v interface{}) bool {
+		g := v.(*groupItem)
+		gh[g] = true
+		if names[g.hookName] == nil {
+			out = append(out, fmt.Sprintf("groupHooks: item for missing hook %q", g.hookName))
+		}
+		col, _ := s.cols.Get(g.colKey)
+		if col == nil || col.Get(g.objID) == nil {
+			out = append(out, fmt.Sprintf("groupHooks: item for missing object %q/%q", g.colKey, g.objID))
+		}
+		return true
+	})
+	nGO := 0
+	s.groupObjects.Ascend(nil, func(v interface{}) bool {
+		g := v.(*groupItem)
+		nGO++
+		if !gh[g] {
+			out = append(out, fmt.Sprintf("groupObjects: item %q/%q/%q not in groupHooks", g.hookName, g.colKey, g.objID))
+		}
+		return true
+	})
+	if nGO != len(gh) {
+		out = append(out, fmt.Sprintf("groupObjects has %d items, groupHooks %d", nGO, len(gh)))
+	}
+	if len(out) > 50 {
+		out = out[:50]
+	}
+	return out
+}
